@@ -85,8 +85,9 @@ class mlodaAPI:
         for feature in features:
             feature.initial_requested_data = True
             self._add_api_input_data(feature, api_input_data_collection)
-            # Propagate strict_type_enforcement to typed features only
-            if self.strict_type_enforcement and feature.data_type is not None:
+            # The per-call flag is a group option of every requested feature: group options are handed on to the input
+            # features, so typed dependencies of an untyped requested feature are strictly checked as well.
+            if self.strict_type_enforcement:
                 feature.options.add(DefaultOptionKeys.strict_type_enforcement, True)
 
         return features
